@@ -41,6 +41,10 @@ const CORPUS: &[(&str, &str)] = &[
     ("byte order mark", "\u{feff}Say \"bom\"\n"),
     ("trailing whitespace and blank lines", "Say \"a\"   \n\t\nSay \"b\"\n\n\n   \n"),
     ("tabs and form feed", "\tSay \"indented\"\n\u{c}Say \"after form feed\"\n"),
+    (
+        "return at top level, more blocks after it",
+        "Say \"a\"\nGive back 1\nSay \"not reached in this block\"\n\n\nSay \"first of block two\"\nSay \"second of block two\"\n\n\nIf true\nSay \"block three\"\n\n",
+    ),
     ("empty", ""),
     ("only blank lines", "\n\n\n"),
     ("hello", "Say \"Hello, World!\"\n"),
@@ -208,6 +212,22 @@ fn gen_world(t: &mut Tape) -> WorldSpec {
         let mut pre = format!("Put \"{}\" into Gizmo\nSay Gizmo\n", lit).into_bytes();
         pre.extend_from_slice(&source);
         source = pre;
+    }
+    // long error messages full of multi-byte characters (whatever is done to
+    // an error text - wrapping, shortening - meets a character boundary)
+    if t.chance(1, 25) {
+        source_kind = "corpus";
+        loop_free = true;
+        let n = 60 + t.draw(400) as usize;
+        let lead = ["", "x", "xy", "\u{20ac}"][t.draw(4) as usize];
+        let filler: String = std::iter::repeat(['\u{e9}', '\u{65e5}', '\u{1f3b8}'][t.draw(3) as usize]).take(n).collect();
+        if t.chance(1, 2) {
+            source = b"Listen to the line\nSay \"got it\"\nCast the line into the number\nSay the number\n".to_vec();
+            stdin = format!("{}{}\n", lead, filler).into_bytes();
+        } else {
+            // a parse error whose text quotes a long non-ASCII token
+            source = format!("Say \"ok\"\nPut {}{} {} into\n", lead, filler, filler).into_bytes();
+        }
     }
     // occasionally a program file larger than any stdio or pipe buffer
     if t.chance(1, 40) {
